@@ -25,6 +25,8 @@ class Controlled:
         self.extra_files = [caching.__file__] if trace_caching else []
 
     def _rfg(self, graph, fn, *, worker_count=None, max_errors=0, scheduler=None):
+        import core
+        core.alive()
         r = detsched.Run(self.rfg, self.sites, self.chooser, extra_files=self.extra_files)
         self.runs.append(r)
         outcome = r.execute(graph, fn, worker_count, max_errors, scheduler)
@@ -35,6 +37,8 @@ class Controlled:
 
     def __enter__(self):
         self._orig = (self.rp.run_function_on_graph, self.caching.run_function_on_graph)
+        if not self.sites.usable:        # the engine lacks the statements the tracer keys on: run the library as it is (real threads)
+            return self
         self.rp.run_function_on_graph = self._rfg
         if self.stale_check:
             self.caching.run_function_on_graph = self._rfg
